@@ -172,6 +172,9 @@ func genWire(r *Rand, g GenCfg) Plan {
 		add(XStep{Op: "reencode", Tok: 0, Kind: "signature"})
 		add(XStep{Op: "reencode", Tok: 1, Kind: "signature"})
 		add(XStep{Op: "reencode", Tok: r.Intn(2), Kind: "trailing"})
+		for i := 0; i < 1+n/4; i++ {
+			add(XStep{Op: "reencode", Tok: r.Intn(2), Kind: "extra_elem", At: r.Intn(1000), Val: r.Intn(64)})
+		}
 	}
 	if focus == "C09" || all {
 		depths := []int{10, 100, 1000, 10000}
